@@ -135,6 +135,11 @@ func WorkerMain(specPath string) {
 		ctx.journal, _ = os.OpenFile(spec.Journal, os.O_CREATE|os.O_RDWR|os.O_TRUNC, 0o644)
 	}
 	def.RunUnit(ctx)
+	for i := range ctx.Stats.Violations {
+		if ctx.Stats.Violations[i].UnitArg == "" {
+			ctx.Stats.Violations[i].UnitArg = spec.Unit.Arg
+		}
+	}
 	ctx.Stats.Seal()
 	out, _ := json.Marshal(ctx.Stats)
 	if err := os.WriteFile(spec.Result+".tmp", out, 0o644); err == nil {
@@ -334,7 +339,7 @@ func ParentMain(self string, id, tier string, verifDir string) int {
 						break
 					}
 					sig, excerpt := crashSignature(es)
-					v := Violation{Property: id, Signature: sig, Detail: excerpt, Scenario: u.Name, Crash: true}
+					v := Violation{Property: id, Signature: sig, Detail: excerpt, Scenario: u.Name, Crash: true, UnitArg: u.Arg}
 					crashes++
 					if strings.HasPrefix(j, "H ") {
 						h := strings.TrimPrefix(j, "H ")
@@ -501,11 +506,12 @@ func writeEvidence(def *CheckDef, tier string, seed int64, st *Stats, exhaustive
 	_ = os.WriteFile(filepath.Join(evDir, def.ID+".json"), b, 0o644)
 }
 
-// ReplayMain re-executes a violation artefact without search.
+// ReplayMain re-executes a violation artefact without search, in this process (a crash is then the
+// observation). It prints what it observes and exits 1 if the recorded violation shows again.
 func ReplayMain(id, path string) int {
 	def := Lookup(id)
-	if def == nil || def.Replay == nil {
-		fmt.Println("no replay support for", id)
+	if def == nil {
+		fmt.Println("unknown check", id)
 		return 0
 	}
 	b, err := os.ReadFile(path)
@@ -518,14 +524,27 @@ func ReplayMain(id, path string) int {
 		fmt.Println(err)
 		return 0
 	}
-	got := def.Replay(v)
-	fmt.Printf("replayed %s (%s): %d violation(s) observed\n", path, HistKey(v.History), len(got))
-	for _, g := range got {
+	fmt.Printf("replaying %s\n  scenario: %s\n  history: %s\n  recorded: %s\n", path, v.Scenario, HistKey(v.History), v.Signature)
+	ReplayOnly = v.History
+	if ReplayOnly == nil {
+		ReplayOnly = []string{}
+	}
+	ctx := &Ctx{Spec: Spec{Check: id, Tier: "quick", Unit: Unit{Name: v.Scenario, Arg: v.UnitArg}, ResumeAfter: -1}, Stats: NewStats(), start: time.Now()}
+	def.RunUnit(ctx)
+	for _, e := range ctx.Stats.HarnessErrs {
+		fmt.Printf("  harness: %s\n", firstLines(e, 5))
+	}
+	fmt.Printf("observed %d violation(s)\n", len(ctx.Stats.Violations))
+	again := false
+	for _, g := range ctx.Stats.Violations {
 		fmt.Printf("  %s: %s\n", g.Signature, firstLines(g.Detail, 8))
 		if g.Signature == v.Signature {
-			fmt.Printf("VIOLATION property=%s replay=%s\n", id, path)
-			return 1
+			again = true
 		}
+	}
+	if again {
+		fmt.Printf("VIOLATION property=%s replay=%s\n", id, path)
+		return 1
 	}
 	return 0
 }
